@@ -405,10 +405,18 @@ func (t *tlcreate) do(cs *connState, uid UID) (*rlcreate, error) {
 		}
 		ref.pathNode.addChild(newRef, t.Name)
 		ref.IncRef() // Acquire parent reference.
+
+		// Hold a reference of our own until the fid table has one: newRef
+		// is visible in the path tree from here on, and a rename or unlink
+		// of the new name that runs before InsertFID skips references
+		// whose count is still zero (TryIncRef fails), i.e. would neither
+		// move nor notify it.
+		newRef.IncRef()
 		return nil
 	}); err != nil {
 		return nil, err
 	}
+	defer newRef.DecRef() // Drop the reference taken above.
 
 	// Replace the fid reference.
 	cs.InsertFID(t.fid, newRef)
